@@ -10,6 +10,10 @@ NOTE = ("Trusted base: clang 14 front end (parser, Sema, constant folder, CFG bu
         "are necessary conditions of the property, not the whole behaviour.")
 
 CLAIMS = {
+ "C01": dict(
+   technique="relational interval abstract interpretation (linear forms over symbols with ranges + path constraints) of libovni's event-buffer functions on the clang CFGs, with inlining of the flush/marker recursion; who-may-write effect analysis; literal agreement of library-made MCVs",
+   text="Establishes the step lemmas of the stream-fidelity induction for every value of evlen, payload size and jumbo size: in ovni_ev_add, ovni_ev_add_jumbo, ovni_flush and write_stream_header every copy into the 2 MiB buffer starts at the first free byte, copies tile without gap/overlap, offset+length <= capacity, evlen ends equal to the bytes buffered and stays below capacity; ovni_payload_add stays inside the 16-byte payload; every flush hands (buffer start, evlen) to write_evbuf, whose loop advances buffer and remaining size by write()'s return, ends only when all is written and dies on error; the user's event is appended exactly once, after an auto-flush and before the OF[ OF] markers; the only events the library makes itself are OF[ OF] and OM[ OM] OM=; the 8-byte header is written first. Not decided: that ovni_payload_add/ovni_payload_size are inverse on the size nibble (arithmetic on run-time values) and what the kernel does with write().",
+   design_ref="§4 C01"),
  "C04": dict(
    technique="typestate extraction: abstract path exploration of the thread handlers over the finite (thread_state x event) domain, compared with the documented FSM; error-propagation analysis to main",
    text="Exhaustive over the abstract domain: pre_thread() is explored (thread.c inlined, infrastructure calls non-deterministic) for all 256 value bytes x 6 thread states; accept/reject and the post-state of every accepting path are compared with the documented state machine; thread_set_state's published view (is_running, is_active, state and TID channels) is evaluated for all 6 states; model_ovni_finish is evaluated on all 1- and 2-thread state combinations and its failure is followed call site by call site to main's exit status. Not decided: that the timeline shows the state at every instant (depends on patch-bay propagation, see C06).",
